@@ -433,18 +433,32 @@ class DbStub:
         self.count = 0
         self.last_select_len = tm.mk_int(0)
         self.version = 0  # bumped by every statement that may write; ghost facts are per version
+        # relational view (contracts/graphdb.py): a column keeps its function symbol across writes that are read
+        # precisely and do not touch it; `full` is the version of the last write whose effect is unknown
+        self.colver = {}
+        self.full = 0
+        self.write_reader = None  # callable(db, old snapshot, sql, args) -> facts, set by a contract
 
     def fact(self, name, *args, sort=None, versioned=True):
         """Ghost: the value of a stored attribute in the current database version, e.g.
         fact('detached', i).  Facts about one version say nothing about the next."""
         c = cur()
         ts = [a if isinstance(a, tm.T) else (sym.I(a) if not isinstance(a, (SymStr, str)) else S(a)) for a in args]
-        suffix = f".v{self.version}" if versioned else ""
+        version = self.col_version("node", "detached") if name == "detached" else self.version
+        suffix = f".v{version}" if versioned else ""
         f = c.decls.fun(f"db.{name}{suffix}", [t.sort for t in ts], sort or BOOL)
         return f(*ts)
 
     def bump(self):
+        """A write whose effect on the tables is not read: every column moves to a new version."""
         self.version += 1
+        self.full = self.version
+
+    def col_version(self, table, col):
+        return max(self.colver.get((table, col), 0), self.full)
+
+    def touch(self, table, col):
+        self.colver[(table, col)] = self.version
 
     def execute(self, sql, args=()):
         c = cur()
@@ -466,7 +480,12 @@ class DbStub:
         if (not norm.upper().startswith(("SELECT", "WITH", "EXPLAIN", "PRAGMA")) or
                 any(w in norm.upper().split() for w in ("UPDATE", "INSERT", "DELETE", "REPLACE"))) \
                 and not writes_only_scratch(norm):
-            self.bump()
+            if self.write_reader is not None:
+                old = self.__snapshot__()
+                self.version += 1
+                c.assume(self.write_reader(self, old, sql, args))
+            else:
+                self.bump()
         c.event("sql", sql=sql, norm=norm, args=args, ordinal=k, db=self)
         cu = Cursor(self, k, sql, args, rowspec, facts, always, on_none)
         cu.on_rows = on_rows
@@ -505,14 +524,18 @@ class DbAt:
 
     def __init__(self, db, version):
         self.db, self.version, self.name = db, version, db.name
+        self.colver, self.full = dict(db.colver), db.full
+
+    def col_version(self, table, col):
+        return max(self.colver.get((table, col), 0), self.full)
 
     def fact(self, name, *args, sort=None, versioned=True):
-        cur_version = self.db.version
-        self.db.version = self.version
+        saved = (self.db.version, self.db.colver, self.db.full)
+        self.db.version, self.db.colver, self.db.full = self.version, self.colver, self.full
         try:
             return self.db.fact(name, *args, sort=sort, versioned=versioned)
         finally:
-            self.db.version = cur_version
+            self.db.version, self.db.colver, self.db.full = saved
 
     def __snapshot__(self):
         return self
